@@ -213,6 +213,20 @@ def map_building(F, rep):
                 for tgt in b.succ(s):
                     if b.edge_dominates((s, tgt), i):
                         guarded += 1
+    # the flag is per awards entry: its `false` initialisation lies inside the loop over entries
+    for fl in flags:
+        inits = [d for d in b.defs().get(fl, []) if d[0] == "assign" and d[3]["rv"]["k"] == "use" and
+                 (op_const(d[3]["rv"]["op"]) or {}).get("int") == "0" or (d[0] == "assign" and (op_const(d[3]["rv"].get("op", {})) or {}).get("disp") == "false")]
+        guarded_ins = [i for i, t in ins if any(b.edge_dominates((s_, tg), i) for s_ in b.reachable() if b.term(s_)["k"] == "switch" for tg in b.succ(s_)
+                                                if P.named_root(b, b.term(s_)["discr"]) == fl or _not_of(b, b.term(s_)["discr"]) == fl)]
+        loops_of_ins = [bl for h, bl in b.loops() if any(i in bl for i in guarded_ins)]
+        outer = max(loops_of_ins, key=len) if loops_of_ins else set()
+        per_entry = bool(inits) and all(d[1] in outer for d in inits)
+        rep.ob("R2", "build:flag-reset-per-entry", per_entry,
+               "the 'vest entry inserted' flag is re-initialised for every awards entry" if per_entry else
+               "the 'vest entry inserted' flag is initialised once, outside the loop over awards entries: after the first vest-style entry "
+               "every later fallback-only entry is silently dropped from the lookup map",
+               b.loc(), key="R2:build:flag-scope")
     rep.ob("R2", "build:fallback-only-if-no-vest", guarded >= 1,
            "the fallback price is inserted under a test of the flag set by the vest-entry insert" if guarded >= 1 else
            "the fallback price is inserted unconditionally: it can shadow a vest-date entry", b.loc(), key="R2:build:fallback-guard")
@@ -267,6 +281,16 @@ def map_building(F, rep):
                                "fallback price is keyed by the entry's own date", x.loc(s["sp"]), key=f"R2:{x.short}:fallback-price-date")
     if not ex:
         rep.unresolved("R2", "EXTRACT", "function reading vest_fair_market_value not found")
+
+
+def _not_of(b, op):
+    p = op_place(op)
+    if p is None:
+        return None
+    d = b.defs().get(p["l"], [])
+    if len(d) == 1 and d[0][0] == "assign" and d[0][3]["rv"]["k"] == "un":
+        return P.named_root(b, d[0][3]["rv"]["a"])
+    return None
 
 
 def rsu_arm(F, rep):
